@@ -1619,7 +1619,7 @@ enum AttributeTarget {
     Field,
 }
 
-fn is_lint_attr(a: &Attribute) -> bool {
+pub(crate) fn is_lint_attr(a: &Attribute) -> bool {
     // not `expect`: the expectation is fulfilled (or not) by the item itself, on a generated impl it could only be unfulfilled
     ["allow", "warn", "deny", "forbid"]
         .iter()
